@@ -102,7 +102,10 @@ theorem timeoutStep_dbt (slot : Bool) (acc : DB × List Ent) (e : Ent) (h : DBT 
     have f := W.visitTimeout_fr _ _ _ _ hw
     exact h.stepW e.key w f (LvG.visitTimeout (Lv.openKey h.dbi e.key) slot e.rid w hw)
       (tight_of_open h e.key w f (fun g cl hne => tight_visitTimeout g cl hne slot e.rid w hw))
-  · exact h
+  · cases slot
+    · exact h.stepW e.key _ (W.collectT_fr _ _) (LvG.of_lv ((Lv.openKey h.dbi e.key).collectT e.rid))
+        (tight_of_open h e.key _ (W.collectT_fr _ _) (fun g cl hne => tight_collectT g cl hne e.rid))
+    · exact h
 
 theorem expireStep_dbt (slot : Bool) (acc : DB × List Ent) (e : Ent) (h : DBT acc.1) : DBT (expireStep slot acc e).1 := by
   unfold expireStep
